@@ -60,7 +60,11 @@ func (m *Machine) bindParams(st *State, fn *ssa.Function, args []Value, fvals []
 	for i, fv := range fn.FreeVars {
 		v := fvals[i]
 		if p, ok := v.(*Ptr); ok {
-			if _, isPtr := fv.Type().(*types.Pointer); isPtr {
+			if pt, isPtr := fv.Type().(*types.Pointer); isPtr {
+				if keepPtrFV(pt.Elem()) {
+					bind[fv.Name()] = p
+					continue
+				}
 				bind[fv.Name()] = m.Load(st, p)
 				bind["&"+fv.Name()] = p
 				continue
@@ -181,7 +185,9 @@ func (m *Machine) verifyOnce() {
 			bind[l.Name] = v
 		}
 		for _, r := range m.fc.Requires {
+			m.assumingPre = true
 			v, ok := m.evalClause(st, r, bind)
+			m.assumingPre = false
 			if !ok {
 				return
 			}
@@ -283,8 +289,12 @@ func (m *Machine) currentBindings(st *State, fr *Frame) map[string]Value {
 	// captured variables: current cell content
 	for i, fv := range fr.fn.FreeVars {
 		if p, ok := fr.fvals[i].(*Ptr); ok {
-			if _, isPtr := fv.Type().(*types.Pointer); isPtr {
-				bind[fv.Name()] = m.Load(st, p)
+			if pt, isPtr := fv.Type().(*types.Pointer); isPtr {
+				if keepPtrFV(pt.Elem()) {
+					bind[fv.Name()] = p
+				} else {
+					bind[fv.Name()] = m.Load(st, p)
+				}
 			}
 		}
 	}
@@ -791,6 +801,10 @@ func (m *Machine) localBindings(st *State, fr *Frame, header *ssa.BasicBlock, na
 func (m *Machine) localBindingsAt(st *State, fr *Frame, at, header *ssa.BasicBlock, names []string, bind map[string]Value) {
 	for _, n := range names {
 		if _, ok := bind[n]; ok {
+			// a parameter that lives in a cell (captured by a nested closure): loop clauses see its current value
+			if cell := m.paramCell(fr, n); cell != nil {
+				bind[n] = m.Load(st, cell)
+			}
 			continue
 		}
 		// rangeindexN: the index variable of range loop number N of this function
@@ -983,6 +997,12 @@ func (m *Machine) enterLoopHeader(st *State, fr *Frame, from, header *ssa.BasicB
 							bind[phi.Comment+"_next"] = m.val(st, fr, phi.Edges[ei])
 						}()
 					}
+				}
+			}
+			for _, l := range spec.EndLets {
+				m.localBindingsAt(st, fr, from, header, paramNames(l), bind)
+				if v, ok := m.evalClause(st, l, bind); ok {
+					bind[l.Name] = v
 				}
 			}
 			for i, it := range spec.Iters {
@@ -1544,6 +1564,12 @@ func (m *Machine) loopExits(st *State, fr *Frame, from, target *ssa.BasicBlock) 
 		}
 		savedBase := st.evBase
 		st.evBase = cut.evBase
+		for _, l := range spec.EndLets {
+			m.localBindingsAt(st, fr, from, h, paramNames(l), bind)
+			if v, ok := m.evalClause(st, l, bind); ok {
+				bind[l.Name] = v
+			}
+		}
 		for i, it := range spec.Exits {
 			if m.onlyProp != "" {
 				tg := it.Tags
@@ -1572,4 +1598,25 @@ func (m *Machine) loopExits(st *State, fr *Frame, from, target *ssa.BasicBlock) 
 		}
 		st.evBase = savedBase
 	}
+}
+
+// paramCell: the heap cell a parameter was moved to (go/ssa does this for parameters captured by closures).
+func (m *Machine) paramCell(fr *Frame, name string) *Ptr {
+	isParam := false
+	for _, p := range fr.fn.Params {
+		if p.Name() == name {
+			isParam = true
+		}
+	}
+	if !isParam || len(fr.fn.Blocks) == 0 {
+		return nil
+	}
+	for _, ins := range fr.fn.Blocks[0].Instrs {
+		if a, ok := ins.(*ssa.Alloc); ok && a.Comment == name {
+			if v, ok := fr.env[a]; ok {
+				return v.(*Ptr)
+			}
+		}
+	}
+	return nil
 }
